@@ -8,6 +8,7 @@
 -/
 import Props.Tables
 import Proofs.LexerRoundTrip
+import Props.Bytes
 namespace Jmes.Props
 open Jmes Jmes.Lexer
 
@@ -110,5 +111,24 @@ example : RawOK [0x61, 0x5C, 0x62, 0x27, 0x63] ∧ Ascii [0x61, 0x5C, 0x62, 0x27
 example : rawSpell [0x61, 0x5C, 0x62, 0x27, 0x63] = [0x61, 0x5C, 0x62, 0x5C, 0x27, 0x63] := by decide
 example : Units 0x22 [0x61, 0x5C, 0x22, 0x5C, 0x5C] :=
   .plain _ _ (by decide) (by decide) (by decide) (.esc _ _ (by decide) (.esc _ _ (by decide) .nil))
+
+/-! ### tokens are read back as written, white space between them is insignificant -/
+
+open Jmes.Lexer in
+/-- The lexer of /repo (regenerated character tables) returns exactly the
+    tokens a byte string renders — identifiers `[A-Za-z_][A-Za-z0-9_]*`,
+    numbers, operators, raw strings `'…'` (value = the string written, `\'` for
+    a quote), literals (value = the JSON text, `` \` `` for a backtick), quoted
+    identifiers (value = the JSON-decoded name) — whatever white space
+    separates them. -/
+theorem C14_tokens_read_back (keys : List (TokType × Bytes)) (s : Bytes) (hr : Rendered keys s) :
+    ∃ lexed, Lexer.tokenize Model.lexTables s = .ok (lexed ++ [⟨.eof, [], s.length⟩]) ∧ lexed.map keyOf = keys :=
+  tokenize_rendered (tablesAscii_of_bool generated_tables_ascii) hr
+
+open Jmes.Lexer in
+theorem C14_white_space_insignificant {N : Type} [NumOps N] (keys : List (TokType × Bytes)) (s1 s2 : Bytes) (ast : Node N)
+    (h1 : Rendered keys s1) (h2 : Rendered keys s2) (hp : Api.compile Model.cfg s1 = .ok ast) :
+    Api.compile Model.cfg s2 = .ok ast :=
+  compile_same_tokens h1 h2 hp
 
 end Jmes.Props
